@@ -289,6 +289,10 @@ pub fn check_protocol(rt: &Runtime, src: &str, d: &Value, st: &mut Stats) {
     let f = RefRec;
     let ev = Eval { funcs: &f, step0_nonarray_null: false };
     let want = ev.search(&p.tree, d);
+    if crate::oracle::unspecified(&want) {
+        st.outcome("unspecified by the oracle (tie)");
+        return;
+    }
     let got = guarded(|| rt.compile(src).map_err(|e| format!("{:?}", e.reason)).and_then(|e| e.search(value_to_var(d)).map(|v| var_to_value(&v)).map_err(|e| format!("{:?}", e.reason))));
     let wl = RLOG.with(|l| l.borrow().clone());
     let gl = LOG.with(|l| l.borrow().clone());
@@ -538,6 +542,13 @@ pub fn run(tier: Tier) -> i32 {
         let call = format!("rec({})", v.join(", "));
         for form in [call.clone(), format!("xs[*].{}", call), format!("to_array({})", call), format!("[{}, rec2(b)]", call), format!("xs[?{}]", call), format!("b | {}", call), format!("sort_by(xs, &{})", call), format!("rec2(`0`) && {}", call), format!("rec2(`[]`) && {}", call)] {
             check_protocol(&rt, &form, &d, &mut st);
+        }
+    }
+    // by-functions over long arrays, with custom functions before, inside and after
+    for n in [100usize, 127, 128, 129, 200, 1000] {
+        let big = json!({"xs": (0..n).map(|i| json!({"n": (i * 37) % 1009, "i": i})).collect::<Vec<_>>(), "b": [1]});
+        for form in ["sort_by(xs, &n)[*].rec(i) | length(@)", "max_by(xs, &n) | rec(@)", "sort_by(xs, &rec2(n))[0].i", "min_by(xs, &n).rec(i)", "rec(max_by(xs, &n).i, length(sort_by(xs, &i)))", "sort_by(xs, &n)[-1] | rec2(@, &i)", "map(&rec(n), xs) | length(@)"] {
+            check_protocol(&rt, form, &big, &mut st);
         }
     }
     check_signatures(&mut st);
